@@ -218,7 +218,7 @@ inline void analyse(const Trace& t, Analysis& A) {
 
 		// --- walk the window, tracking the outstanding request ---------------------------------
 		if (w.type == WT_OP && (w.code == OP_CHANGE || w.code == OP_IMMEDIATE)) { S.out = mkReq(NOID, first.a, first.c); S.outKnown = true; S.leftover = false; }
-		if (w.type == WT_OP && w.code == OP_LOAD) { S.outKnown = false; S.leftover = false; }   // load discards the request; whether its callbacks still see it is not specified
+		if (w.type == WT_OP && w.code == OP_LOAD) { S.out = TrV{}; S.outKnown = false; S.leftover = false; }   // load discards the request; whether its callbacks still see the old one is not specified
 
 		// phase part and plan step (update / react)
 		uint32_t procFrom = w.b + 1;
@@ -319,7 +319,9 @@ inline void analyse(const Trace& t, Analysis& A) {
 			settle(S, w, f);
 		}
 		// deactivation discards the outstanding request (its exit callbacks still see it)
-		if ((w.type == WT_OP && (w.code == OP_EXIT || w.code == OP_RECONSTRUCT || w.code == OP_LOAD)) || w.type == WT_TEARDOWN) { S.out = TrV{}; S.outKnown = true; S.leftover = false; }
+		if ((w.type == WT_OP && (w.code == OP_EXIT || w.code == OP_RECONSTRUCT)) || w.type == WT_TEARDOWN) { S.out = TrV{}; S.outKnown = true; S.leftover = false; }
+		// load: the old request is gone; a request made through the machine by one of load's own exit / enter / reenter callbacks stays outstanding
+		if (w.type == WT_OP && w.code == OP_LOAD) { S.outKnown = true; S.leftover = false; if (last && last->mAct == NOID) S.out = TrV{}; }   // (loading an inactive snapshot is a deactivation)
 		if (w.aborted) S.dead = true;
 		// resync unknown from the library's own report at the next callback (checks relying on it are skipped there)
 		if (!S.outKnown) {
